@@ -43,13 +43,14 @@ type hcCOp struct {
 }
 
 type hcReqPlan struct {
-	post    bool
-	bodyLen int
-	chunks  []int
-	declCL  bool
-	getBody bool
-	eofData bool // the last chunk is returned together with io.EOF
-	cops    []hcCOp
+	post     bool
+	bodyLen  int
+	chunks   []int
+	declCL   bool
+	getBody  bool
+	eofData  bool // the last chunk is returned together with io.EOF
+	stubborn bool // Close does not interrupt a Read in progress
+	cops     []hcCOp
 }
 
 type hcOp struct {
@@ -117,7 +118,7 @@ func hcDrawPlan(rt *rapid.T, focus string) *hcPlan {
 		p.strWin = vs.Pick(c, 0, 1, 1000, 65535, 1<<20)
 		p.maxRead = uint32(vs.Pick(c, 0, 16384, 1<<20))
 		nreq = vs.Range(c, 1, vs.Thorough(24, 60))
-		postPct, maxBody = 20, 3000
+		postPct, maxBody = 35, 3000
 	case "C11":
 		p.connWin = vs.Pick(c, 65535, 100000, 0)
 		p.strWin = vs.Pick(c, 1000, 1, 100, 16384, 65535, 200000, 0)
@@ -144,11 +145,16 @@ func hcDrawPlan(rt *rapid.T, focus string) *hcPlan {
 			q.bodyLen = vs.SizeBiased(c, maxBody, 16384, 65535)
 			nch := vs.Range(c, 1, 3)
 			for j := 0; j < nch; j++ {
+				if focus == "C10" { // many small reads: the body is usually still being read when the response ends
+					q.chunks = append(q.chunks, 1+q.bodyLen/48+vs.SizeBiased(c, 64, 1))
+					continue
+				}
 				q.chunks = append(q.chunks, 1+q.bodyLen/48+vs.SizeBiased(c, 70000, 1, 4096, 16384))
 			}
 			q.declCL = vs.Bool(c)
 			q.getBody = vs.Bool(c)
 			q.eofData = vs.Pct(c, 30)
+			q.stubborn = vs.Pct(c, 30)
 		}
 		nc := vs.Range(c, 0, 4)
 		for j := 0; j < nc; j++ {
@@ -261,12 +267,13 @@ func hcRespByte(idx int, off int64) byte { return byte(int64(idx)*131 + off*7 + 
 var errHcBodyClosed = errors.New("vf: request body closed")
 
 type hcBody struct {
-	r       *hcRun
-	idx     int
-	inst    int // 0 = Request.Body, n = n-th GetBody result
-	total   int
-	chunks  []int
-	eofData bool
+	r        *hcRun
+	idx      int
+	inst     int // 0 = Request.Body, n = n-th GetBody result
+	total    int
+	chunks   []int
+	eofData  bool
+	stubborn bool
 
 	mu       sync.Mutex
 	cond     *sync.Cond
@@ -288,7 +295,7 @@ func (b *hcBody) Read(p []byte) (int, error) {
 	gen := b.closeGen
 	b.waiting, b.granted = true, false
 	b.r.sim.Wake()
-	for !b.granted && b.closeGen == gen && !b.dead {
+	for !b.granted && (b.closeGen == gen || b.stubborn) && !b.dead {
 		b.cond.Wait()
 	}
 	b.waiting = false
@@ -478,6 +485,7 @@ type hcReq struct {
 	read      int64
 	readErr   error
 	sawEOF    bool
+	closing   bool
 	closed    bool
 	done      bool
 	attempts  []*hcStream
@@ -720,7 +728,7 @@ func (cn *hcConn) bounds(delivered int64) (mcs, iw, mf int64) {
 }
 
 func (r *hcRun) newBody(rq *hcReq) *hcBody {
-	b := &hcBody{r: r, idx: rq.idx, total: rq.p.bodyLen, chunks: rq.p.chunks, eofData: rq.p.eofData}
+	b := &hcBody{r: r, idx: rq.idx, total: rq.p.bodyLen, chunks: rq.p.chunks, eofData: rq.p.eofData, stubborn: rq.p.stubborn}
 	b.cond = sync.NewCond(&b.mu)
 	r.mu.Lock()
 	b.inst = len(rq.bodies)
@@ -1288,6 +1296,9 @@ func (r *hcRun) doOp(op hcOp) {
 		if st.cliRstKnown {
 			vs.G.Inc("probe.data_on_stream_reset_by_client")
 		}
+		if rq := r.reqs[st.req]; rq.closing && rq.respStr == st && !st.cliRst && !st.cliEnd {
+			vs.G.Inc("probe.data_after_body_closed_stream_still_open")
+		}
 		if len(cn.goaways) > 0 {
 			vs.G.Inc("probe.data_after_goaway")
 		}
@@ -1544,7 +1555,11 @@ func (r *hcRun) Events(now time.Time) []vs.Event {
 		for _, b := range rq.bodies {
 			if b.wantsGrant() {
 				b := b
-				evs = append(evs, vs.Event{Label: fmt.Sprintf("body r%d.%d read", b.idx, b.inst), Weight: 2, Run: b.grant})
+				w := 2
+				if b.stubborn {
+					w = 1
+				}
+				evs = append(evs, vs.Event{Label: fmt.Sprintf("body r%d.%d read", b.idx, b.inst), Weight: w, Run: b.grant})
 			}
 		}
 	}
@@ -1714,6 +1729,9 @@ func (r *hcRun) caller(rq *hcReq) func(tk *vs.Task) {
 			}
 		}
 		tk.Step("close")
+		r.mu.Lock()
+		rq.closing = true
+		r.mu.Unlock()
 		resp.Body.Close()
 		r.mu.Lock()
 		rq.closed = true
@@ -1755,7 +1773,7 @@ func hcRunOnce(t *testing.T, rt *rapid.T, focus string) {
 		}
 		tr.Ev("plan focus=%s strict=%v connWin=%d strWin=%d maxRead=%d iw=%d mf=%d mcs=%d wu=%d reqs=%d ops=%d", focus, p.strict, p.connWin, p.strWin, p.maxRead, p.initIW, p.initMF, p.initMCS, p.initWU, len(p.reqs), len(p.ops))
 		for i, q := range p.reqs {
-			tr.Ev("  req %d post=%v len=%d chunks=%v cl=%v getbody=%v eofdata=%v cops=%v", i, q.post, q.bodyLen, q.chunks, q.declCL, q.getBody, q.eofData, q.cops)
+			tr.Ev("  req %d post=%v len=%d chunks=%v cl=%v getbody=%v eofdata=%v stubborn=%v cops=%v", i, q.post, q.bodyLen, q.chunks, q.declCL, q.getBody, q.eofData, q.stubborn, q.cops)
 		}
 		for _, rq := range r.reqs {
 			sim.Go(fmt.Sprintf("c%d", rq.idx), focus, r.caller(rq))
@@ -1934,6 +1952,9 @@ func (r *hcRun) finalC10() *vs.Violation {
 				if avail+unsent < configured && r.overCLRead() {
 					return vs.Violf("C10", "conn_credit_conservation", "cli:leak_after_over_content_length_read", "conn %d (closed): after all bodies were read or closed the client's connection receive ledger is %d + %d unsent = %d, configured %d", cn.idx, avail, unsent, avail+unsent, configured)
 				}
+				if avail+unsent < configured && r.failedWithLingeringBody() {
+					return vs.Violf("C10", "conn_credit_conservation", "cli:leak_response_data_of_failed_request_with_blocked_body_read", "conn %d (closed): after all bodies were read or closed the client's connection receive ledger is %d + %d unsent = %d, configured %d", cn.idx, avail, unsent, avail+unsent, configured)
+				}
 				return vs.Violf("C10", "conn_credit_ledger", "cli:ledger_leak_closed_conn", "conn %d (closed): after all bodies were read or closed the client's connection receive ledger is %d + %d unsent = %d, configured %d", cn.idx, avail, unsent, avail+unsent, configured)
 			}
 			continue
@@ -1946,6 +1967,8 @@ func (r *hcRun) finalC10() *vs.Violation {
 				kind = "over_refund"
 			} else if r.overCLRead() {
 				kind = "leak_after_over_content_length_read"
+			} else if r.failedWithLingeringBody() {
+				kind = "leak_response_data_of_failed_request_with_blocked_body_read"
 			}
 			return vs.Violf("C10", "conn_credit_conservation", "cli:"+kind, "conn %d: after all bodies were read or closed: configured connection window %d, server's view %d + batched unsent %d = %d (server sent %d flow-controlled bytes; client's own ledger avail=%d)", cn.idx, configured, peerView, unsent, peerView+unsent, cn.srvConnFlow, avail)
 		}
@@ -1958,6 +1981,22 @@ func (r *hcRun) overCLRead() bool {
 	for _, rq := range r.reqs {
 		if rq.readErr != nil && strings.Contains(rq.readErr.Error(), "more than declared Content-Length") {
 			return true
+		}
+	}
+	return false
+}
+
+// failedWithLingeringBody: a request whose RoundTrip failed (so no Response was
+// ever handed out) while its Request.Body does not let Close interrupt a Read,
+// and for which the server sent response DATA.
+func (r *hcRun) failedWithLingeringBody() bool {
+	for _, rq := range r.reqs {
+		if rq.p.stubborn && rq.err != nil {
+			for _, a := range rq.attempts {
+				if a.srvFlow > 0 {
+					return true
+				}
+			}
 		}
 	}
 	return false
@@ -2045,7 +2084,7 @@ func hcTest(t *testing.T, focus string) {
 		}
 		switch focus {
 		case "C10":
-			for _, p := range []string{"probe.conservation_evaluated", "probe.padded_data", "probe.data_beyond_content_length", "probe.data_on_stream_reset_by_client", "probe.data_after_goaway"} {
+			for _, p := range []string{"probe.conservation_evaluated", "probe.padded_data", "probe.data_beyond_content_length", "probe.data_on_stream_reset_by_client", "probe.data_after_goaway", "probe.data_after_body_closed_stream_still_open"} {
 				vs.G.Add(p, 0)
 			}
 		case "C11":
